@@ -551,7 +551,7 @@ impl<W: Wd> Dyn<W> for CurRO<W> {
         (UNSUP.into(), self)
     }
     fn dup(&self) -> Box<dyn Dyn<W>> {
-        Box::new(CurRO(self.0.clone()))
+        Box::new(CurRO(clone_both_cursor(&self.0)))
     }
 }
 
@@ -573,8 +573,20 @@ impl<W: Wd> Dyn<W> for RevRO<W> {
         (UNSUP.into(), self)
     }
     fn dup(&self) -> Box<dyn Dyn<W>> {
-        Box::new(RevRO(Reverse(self.0 .0.clone())))
+        Box::new(RevRO(Reverse(clone_both_cursor(&self.0 .0))))
     }
+}
+
+
+/// both forms of `Clone` for cursors: `clone()`, then `clone_from()` into a cursor over another
+/// buffer at another position (a type may override `clone_from`)
+fn clone_both_cursor<W: Wd, B: Clone + AsRef<[W]>>(c: &Cursor<W, B>) -> Cursor<W, B> {
+    let copy = c.clone();
+    let len = c.buf().as_ref().len();
+    let mut other = copy.clone();
+    let _ = constriction::Seek::seek(&mut other, if constriction::Pos::pos(c) == 0 { len } else { 0 });
+    other.clone_from(&copy);
+    other
 }
 
 // ---------------------------------------------------------------------------------------
